@@ -62,6 +62,14 @@ def invoke(c, r):
         for name, dflt in opt[:last + 1]:
             args.append(kw.get(name, dflt))
         return getattr(c, op)(*args)
+    if op == "reconfigure":
+        # the application assigns public attributes (timeout, connect_timeout, ...) on the object - and on the per-server
+        # clients of a hash client - at run time
+        for obj in [c] + list(getattr(c, "clients", {}).values()):
+            for name, value in r["set"].items():
+                if hasattr(obj, name):
+                    setattr(obj, name, value)
+        return None
     if op in STORE_OPS:
         return getattr(c, op)(r["key"], r["value"], **kw)
     if op == "cas":
